@@ -52,6 +52,12 @@ def run(replay=None):
         '(d) it stays inside the range of the corner values widened by the same bound. Every case is also compared bit for bit with the Flocq model evaluated in the code\'s operation order '
         '(Stack.linear_comp, whose exact-arithmetic instance is proved to be the N-linear interpolant: theorems C03_*). '
         'A case = (stack, field, coordinate); non-trivial = not a lattice point; distinct by those.')
+    with core.Lock('coq'):
+        rep, tlog = core.translate()
+    for u in rep['untranslatable']:
+        if u['group'] == 'Linear':
+            chk.obligation_broken('translation of ' + u['name'], u['why'])
+    chk.cov['linear_branches_in_source'] = rep.get('linear', {}).get('branches') if isinstance(rep.get('linear'), dict) else None
     chk.prove('Properties_C03.v')
     r = chk.rng
     probes = []
